@@ -214,7 +214,7 @@ def rootDecomp (c : Call) (s : St) : St × Val :=
     if meth == "cholesky" then
       let r := cholesky P m false s
       (r.1, Val.root .chol true true m)
-    else if meth == "pivoted_cholesky" then (s.log ["pivchol"], Val.root .pivchol false false m)
+    else if meth == "pivoted_cholesky" then (((toDense P m s).1).log ["pivchol"], Val.root .pivchol false false m)
     else if meth == "symeig" then (symeigRun P m s, Val.root .symeig false false m)
     else if meth == "diagonalization" then
       let r := diagonalization P σ n m .noargs s
